@@ -256,7 +256,7 @@ func FaultCase(c *Case) M {
 		}
 		return o
 	}
-	if !B(out, "faulted") && S(out, "class") != plan.class {
+	if !B(out, "faulted") && !B(out, "signalled") && S(out, "class") != plan.class {
 		// the fault-free run of a prepared flow must succeed; otherwise the sweep proves nothing
 		o["class"] = "prepfail"
 		o["got"] = S(out, "class")
